@@ -15,3 +15,7 @@
         let d = crate::decimal::parse_decimal(&buf[..]);
         assert!(d.num_digits <= crate::decimal::Decimal::MAX_DIGITS);
     }
+
+// 2026-10-03, second attempt: the same harness with fully CONCRETE contents (a loop over K = 1..=8, buf = [b'5'; 800],
+// buf[K] = b'.') still hits the 400 s CBMC timeout; the leaves is_8digits / read_u64 / write_u64 are proved instead
+// (kani/number.rs: is_8digits_all, read_write_u64_window).
